@@ -113,16 +113,6 @@ func analyseRange(l *Loop) rangeInfo {
 		}
 	}
 	// slice idiom
-	var phi *ssa.Phi
-	for _, in := range h.Instrs {
-		if p, ok := in.(*ssa.Phi); ok {
-			phi = p
-			break
-		}
-	}
-	if phi == nil {
-		return rangeInfo{}
-	}
 	ifi, ok := h.Instrs[len(h.Instrs)-1].(*ssa.If)
 	if !ok {
 		return rangeInfo{}
@@ -133,7 +123,11 @@ func analyseRange(l *Loop) rangeInfo {
 	}
 	// i+1 < len
 	inc, ok := cmp.X.(*ssa.BinOp)
-	if !ok || inc.X != ssa.Value(phi) {
+	if !ok || inc.Op.String() != "+" {
+		return rangeInfo{}
+	}
+	phi, ok := inc.X.(*ssa.Phi)
+	if !ok || phi.Block() != h {
 		return rangeInfo{}
 	}
 	if c, ok := constInt(inc.Y); !ok || c != 1 {
